@@ -38,6 +38,36 @@ CANON = {'int': r'-?[0-9]+', 'float': r'-?[0-9]+(\.[0-9]+)?'}
 DOC_QUANT = {'': '', '?': '?', '*': '*', '+': '+'}
 
 
+def check_match_path_no_raise(rep, rule):
+    """Every converter call in BoundRoute.match_path really runs under a handler catching ValueError and TypeError
+    that returns None (a lazily evaluated call -- generator expression consumed later, lambda -- is not protected by
+    the try it is written in)."""
+    repo = rep.repo
+    route = repo.mod(ROUTE)
+    mp = route.func('BoundRoute.match_path')
+    conv_vars = set()
+    for n in ast.walk(mp.node):
+        if isinstance(n, ast.For) and 'converters' in norm(n.iter):
+            conv_vars |= set(x.id for x in ast.walk(n.target) if isinstance(x, ast.Name))
+        if isinstance(n, ast.comprehension) and 'converters' in norm(n.iter):
+            conv_vars |= set(x.id for x in ast.walk(n.target) if isinstance(x, ast.Name))
+    conv_calls = [c for c in ast.walk(mp.node) if isinstance(c, ast.Call) and
+                  ((isinstance(c.func, ast.Name) and c.func.id in conv_vars) or
+                   (isinstance(c.func, ast.Subscript) and 'converters' in norm(c.func.value)))]
+    if not conv_calls:
+        raise AnalysisError('match_path: converter call not found')
+    for c in conv_calls:
+        for exc in ('ValueError', 'TypeError'):
+            h = protected_by(mp, c, exc)
+            ok = h is not None and all(isinstance(r.value, ast.Constant) and r.value.value is None for r in ast.walk(h) if isinstance(r, ast.Return)) and \
+                isinstance(h.body[-1], ast.Return)
+            rep.check(rule, fkey(mp, 'converter under except %s' % exc), ok, 'a %s from a converter means "no match" (returns None)' % exc if ok else
+                      'a %s raised by a converter escapes match_path (not under a handler at the point where it actually runs): the request '
+                      'fails instead of trying the next route' % exc, route, c)
+    # nothing else in match_path can raise on request data outside the handler: the regex match itself is total
+    return len(conv_calls)
+
+
 def run(rep):
     repo = rep.repo
     route = repo.mod(ROUTE)
@@ -163,6 +193,11 @@ def run(rep):
               'the segment pattern / converter do not come from the type tables', route, fc)
     rep.floor('R05.b', 9)
 
+    # names by role: the converter map is the second element of the returned pair, the segment list is what sep joins
+    cp_rets = [r for r in returns_of(cp) if isinstance(r.value, ast.Tuple) and len(r.value.elts) == 2]
+    if len(cp_rets) != 1:
+        raise AnalysisError('_compile_path_pattern: expected "return regex, converter_map"')
+    VCM = norm(cp_rets[0].value.elts[1])
     # ---- R05.c -----------------------------------------------------------
     rz = [r for r in raises_of(cp) if raise_type(r) == 'InvalidPattern']
     found = {}
@@ -175,7 +210,7 @@ def run(rep):
             found['leading slash'] = r
         elif has_cond(cs, lambda t: norm(t) == "'//' in %s" % pvar, True):
             found["'//'"] = r
-        elif has_cond(cs, lambda t: isinstance(t, ast.Compare) and isinstance(t.ops[0], ast.In) and 'var_converter_map' in norm(t.comparators[0]), True):
+        elif has_cond(cs, lambda t: isinstance(t, ast.Compare) and isinstance(t.ops[0], ast.In) and norm(t.comparators[0]) == VCM, True):
             found['duplicate binding'] = r
         elif in_handler and 'KeyError' in norm(in_handler[0].type):
             tr = [t for t, part in tries if part == 'handler'][0]
@@ -187,7 +222,7 @@ def run(rep):
     for label in ('leading slash', "'//'", 'duplicate binding', 'unknown type', 'unknown operator'):
         rep.check('R05.c', fkey(cp, 'rejects: ' + label), label in found, 'InvalidPattern is raised for: %s' % label if label in found else
                   'no guarded "raise InvalidPattern" for: %s' % label, route, found.get(label, cp.node))
-    dup_store = [s for s in stmts_of(cp.node) if isinstance(s, ast.Assign) and norm(s.targets[0]).startswith('var_converter_map[')]
+    dup_store = [s for s in stmts_of(cp.node) if isinstance(s, ast.Assign) and norm(s.targets[0]).startswith(VCM + '[')]
     ok = len(dup_store) == 1 and 'duplicate binding' in found
     rep.check('R05.c', fkey(cp, 'bindings recorded'), ok, 'every binding is recorded, so a second use of the name is seen' if ok else
               'bindings are not recorded in var_converter_map', route, cp.node)
@@ -219,7 +254,9 @@ def run(rep):
             all(isinstance(s, ast.AugAssign) and isinstance(s.op, ast.Add) for s in asg[1:])
         rep.check('R05.d', fkey(cp, "starts with '^'"), ok, "the expression starts with '^' and is only appended to" if ok else
                   "the expression does not start with '^' / is re-assigned", route, first or cp.node)
-        joins = [s for s in asg[1:] if isinstance(s.value, ast.Call) and call_tail(s.value) == 'join' and norm(s.value.func.value) == 'sep' and norm(s.value.args[0]) == 'processed']
+        sepv = kw.get('sep')
+        joins = [s for s in asg[1:] if isinstance(s.value, ast.Call) and call_tail(s.value) == 'join' and norm(s.value.func.value) == sepv
+                 and isinstance(s.value.args[0], ast.Name)]
         rep.check('R05.d', fkey(cp, 'segments joined by sep'), len(joins) == 1, 'processed segments are joined with the mode\'s separator' if len(joins) == 1 else
                   'processed segments are not joined with sep', route, cp.node)
         tails = [s for s in asg[1:] if isinstance(s.value, ast.Constant) and s.value.value == '/*']
@@ -227,26 +264,18 @@ def run(rep):
             len(asg) == 3
         rep.check('R05.d', fkey(cp, "trailing '/*'"), ok, "outside strict mode trailing slashes are tolerated ('/*'), in strict mode nothing is added" if ok else
                   "the trailing '/*' is not added exactly when mode != S_STRICT", route, tails[0] if tails else cp.node)
-    seps = [s for s in stmts_of(cp.node) if isinstance(s, ast.Assign) and norm(s.targets[0]) == 'sep' and isinstance(s.value, ast.Constant)]
+    seps = [s for s in stmts_of(cp.node) if isinstance(s, ast.Assign) and norm(s.targets[0]) == kw.get('sep') and isinstance(s.value, ast.Constant)]
     vals = dict((s.value.value, conds(cp, s)) for s in seps)
     ok = set(vals) == {'/+', '/'} and has_cond(vals['/'], lambda t: norm(t) == 'mode == S_STRICT', True) and \
         not any('mode' in norm(t) for t, p in vals['/+'])
     rep.check('R05.d', fkey(cp, 'separators'), ok, "separator is '/+' (repeated slashes tolerated) and exactly '/' in strict mode" if ok else
               'separator per mode changed: %s' % sorted(vals), route, seps[0] if seps else cp.node)
-    ok = kw.get('sep') == 'sep'
+    ok = kw.get('sep') is not None and bool(seps)
     rep.check('R05.d', fkey(cp, 'segment separator'), ok, 'bindings use the same separator' if ok else 'binding segments use another separator', route, fc)
     mp = route.func('BoundRoute.match_path')
-    conv_calls = [c for c in walk_body(mp.node) if isinstance(c, ast.Call) and isinstance(c.func, ast.Name) and
-                  any(isinstance(s, ast.For) and c.func.id in [n.id for n in ast.walk(s.target) if isinstance(n, ast.Name)] for s in stmts_of(mp.node))]
-    if not conv_calls:
-        raise AnalysisError('match_path: converter call not found')
-    for c in conv_calls:
-        for exc in ('ValueError', 'TypeError'):
-            h = protected_by(mp, c, exc)
-            ok = h is not None and all(isinstance(r.value, ast.Constant) and r.value.value is None for r in ast.walk(h) if isinstance(r, ast.Return)) and \
-                isinstance(h.body[-1], ast.Return)
-            rep.check('R05.d', fkey(mp, 'converter under except %s' % exc), ok, 'a %s from a converter means "no match" (returns None)' % exc if ok else
-                      'a %s raised by a converter escapes match_path (the request fails instead of trying the next route)' % exc, route, c)
+    check_match_path_no_raise(rep, 'R05.d')
+    from .c07 import check_bound_regex
+    check_bound_regex(rep, 'R05.d')
     m_st = [s for s in stmts_of(mp.node) if isinstance(s, ast.Assign) and isinstance(s.value, ast.Call) and norm(s.value.func) == 'self.regex.match']
     ok = len(m_st) == 1 and any(isinstance(r.value, ast.Constant) and r.value.value is None and
                                 has_cond(conds(mp, r), lambda t: norm(t) == norm(m_st[0].targets[0]), False) for r in returns_of(mp))
